@@ -4,6 +4,10 @@ NOTES = ("All checks go through ./check <ID>: real sources of /repo's working tr
          "harness is dual-mode); 2 undecided/infrastructure (never a violation). See DESIGN.md.")
 TODO = "contracts for this property are not built yet in this revision (see DESIGN.md section 5 for the plan); not claimed"
 CHECKS = {
+ "C14": dict(category="other", design_ref="DESIGN.md section 5, C14",
+   technique="relational contracts: SAFE==FAST on equal symbolic inputs; branch-trace self-composition via goto-instrument --branch hook (two runs, independent values, equal lengths)",
+   text="For every SAFE/FAST pair covered: equality of results on all values for concrete operand lengths (B(N)), and equality of the branch-decision sequence of the SAFE edition on two independent symbolic value sets (self-composition over the goto program, NDEBUG build). A negative control (FAST wwCmp must fail) runs on every invocation. Counterexamples are replayed natively on gcc -O1 machine code through -fsanitize-coverage=trace-pc.",
+   note="C semantics, not -O2/-O3 machine code (stated as unchecked assumption); operand lengths bounded (1,2,4 words); belt/bash verification entry points are not yet under this obligation."),
  "C05": dict(category="other", design_ref="DESIGN.md section 5, C05",
    technique="CBMC function + loop contracts (dfcc) for unbounded safety/frame/flag-range; bounded value contracts against double-width reference arithmetic; SMT-decided SAFE==FAST equivalence for reductions",
    text="Mixed, stated per obligation group in the evidence: P (unbounded n, loop contracts) for memory safety inside exactly-sized arrays, frame, termination and carry/borrow/flag range of the additive zz layer; Pc (complete over all 2^W inputs) for the word-level helpers; B(N) value-exactness of zz_add/zz_mod/ww/mem functions for operand lengths up to 4 words / 19 octets under every documented aliasing and for both editions; relational SAFE==FAST for Montgomery reduction (n=1, cvc5/z3). Multiplicative value facts beyond one limb are outside every installed back end and are listed as not covered; native differential search stands in for them and is labelled as such.",
@@ -15,7 +19,7 @@ CHECKS = {
 }
 NOT_APPLICABLE = {
  "C01": TODO, "C02": TODO, "C03": TODO, "C04": TODO, "C07": TODO, "C08": TODO, "C09": TODO,
- "C10": TODO, "C11": TODO, "C12": TODO, "C14": TODO, "C15": TODO, "C16": TODO, "C17": TODO, "C19": TODO,
+ "C10": TODO, "C11": TODO, "C12": TODO, "C15": TODO, "C16": TODO, "C17": TODO, "C19": TODO,
  "C06": "EC group law / scalar multiplication: algebraic identities over GF(p)/GF(2^m) through function-pointer field objects; every query contains modular inversion/multiplication facts no installed back end decides (measured: N>=2 limb products time out); exhaustive small curves are enumeration, not contracts",
  "C13": "bels threshold recovery is CRT over GF(2)[x] with extended GCD; no quantifier-free or SMT-decidable contract states 'any t shares recover the secret'",
  "C18": "quantifier is over thread schedules; CBMC's contract instrumentation (--dfcc) is sequential and mtCallOnce/mtAtomic* are compiler intrinsics; bounded thread exploration would be model checking, a different family",
